@@ -652,27 +652,40 @@ collect:
 		case <-time.After(2 * time.Millisecond):
 		}
 	}
-	// hostile cases: the receive path must still deliver after the malformed datagrams.  Loss is
-	// allowed, so up to 5 probe messages (Transport.WriteUnreliable, appended to handle 0's list)
-	// are written one at a time until one is read; anything else that shows up is kept as a read.
+	// counters of the phase the Coq case describes (the probe phase below is outside it)
+	tx, rx := wr.TxBytesCounterValue(), rd.RxBytesCounterValue()
+	// hostile cases: the receive loop must have survived the malformed datagrams.  Datagram loss is
+	// never a violation, so "dead" is told apart from "loss" by the peer's rx counter, which the
+	// receive loop advances for every datagram it takes off the session: up to 40 probe messages,
+	// each ONE datagram whatever the case's payload size (the hook is set back to 1188 for this
+	// phase), one every 50 ms (2 s), stop at the first delivery.  Flagged only when no probe was
+	// delivered AND the counter did not move during the whole phase (or a Read failed, see rerr).
+	// Probes are not part of the Coq case: reads equal to a probe are dropped, anything else that
+	// shows up is kept as a read.
 	probeDead := false
+	probesSent, probeWriteErr := 0, ""
+	var rxProbe0, rxProbe1 uint64
 	if hostile && rerr == nil {
+		if ci.P > 0 {
+			back := verifhooks.SegmentSetMaxPayloadSize(1188)
+			defer back() // runs before the deferred restore of the case's own setting
+		}
+		rxProbe0 = rd.RxBytesCounterValue()
+		probes := map[string]bool{}
 		alive := false
-		for p := 0; p < 5 && !alive && rerr == nil; p++ {
+		for p := 0; p < 40 && !alive && rerr == nil && probeWriteErr == ""; p++ {
 			m := append([]byte{0xFD, byte(p)}, []byte("probe after malformed datagrams")...)
-			msgs[0] = append(msgs[0], m)
-			total++
+			probes[string(m)] = true
 			if !guarded(func() {
 				if err := wu.WriteUnreliable(m); err != nil {
-					mu.Lock()
-					werrs = append(werrs, err.Error())
-					mu.Unlock()
+					probeWriteErr = err.Error()
 				}
 			}) {
 				res.direct = fmt.Sprintf("unreliable Write did not return within the watchdog (%s, probe)", ci.Tr)
 				return
 			}
-			wait := time.After(grace)
+			probesSent++
+			wait := time.After(50 * time.Millisecond)
 		probe:
 			for {
 				select {
@@ -681,18 +694,17 @@ collect:
 						rerr = r.err
 						break probe
 					}
-					got = append(got, r.m)
-					if bytes.Equal(r.m, m) {
+					if probes[string(r.m)] {
 						alive = true
 						break probe
 					}
+					got = append(got, r.m)
 				case <-wait:
 					break probe
 				}
 			}
 		}
-		probeDead = !alive && rerr == nil
-		// late hand-ups of malformed datagrams
+		// late hand-ups of malformed datagrams (and late probes)
 		drain := time.After(10 * time.Millisecond)
 	drainLoop:
 		for rerr == nil {
@@ -700,15 +712,16 @@ collect:
 			case r := <-rch:
 				if r.err != nil {
 					rerr = r.err
-				} else {
+				} else if !probes[string(r.m)] {
 					got = append(got, r.m)
 				}
 			case <-drain:
 				break drainLoop
 			}
 		}
+		rxProbe1 = rd.RxBytesCounterValue()
+		probeDead = !alive && rerr == nil && probeWriteErr == "" && probesSent == 40 && rxProbe1 == rxProbe0
 	}
-	tx, rx := wr.TxBytesCounterValue(), rd.RxBytesCounterValue()
 	var injBytes uint64
 	for _, x := range ci.Hostile {
 		injBytes += uint64(len(x.Raw))
@@ -758,7 +771,7 @@ collect:
 		fails = append(fails, fmt.Sprintf("%d unreliable Write calls failed, first: %s", len(werrs), werrs[0]))
 	}
 	if probeDead {
-		fails = append(fails, "after the malformed datagrams none of 5 probe messages was delivered: the receive loop no longer hands up messages")
+		fails = append(fails, fmt.Sprintf("after the malformed datagrams none of 40 single-datagram probes (one every 50 ms) was delivered and the peer's rx counter stayed at %d: the receive loop is dead", rxProbe0))
 	}
 	if rx > tx+injBytes {
 		fails = append(fails, fmt.Sprintf("reader's rx counter %d exceeds writer's tx counter %d + %d injected bytes", rx, tx, injBytes))
@@ -786,6 +799,11 @@ collect:
 		res.obs["injected"] = len(ci.Hostile)
 		res.obs["injected_bytes"] = injBytes
 		res.obs["raw_send_errors"] = len(injErrs)
+		res.obs["probes_sent"] = probesSent
+		res.obs["rx_during_probes"] = rxProbe1 - rxProbe0
+		if probeWriteErr != "" {
+			res.obs["probe_write_error"] = probeWriteErr
+		}
 	}
 	if len(werrs) > 0 {
 		res.obs["first_write_error"] = werrs[0]
@@ -1223,7 +1241,7 @@ func main() {
 		})
 	}
 	rule := "real transports over loopback sockets (wt = transport/webtransport, quic = transport/quic, ws = transport/websocket with the " + wsBackend +
-		" backend), the repository's transport on both ends, a fresh connection per case; one round = 99 cases (32 wt, 32 quic, 35 ws), quick = 3 rounds, thorough = 30. stream: per transport every level {0,1,6,9} (ws: off, per-message x {1,6,9}, context takeover window bits {0,1,8,15} x {1,6,9}) x {one writer, 2-4 concurrent writers}, 6-14 messages per writer with sizes 0,1,2,3,5,17,100,254-258,1000,4095,4096, random <600, one or two of 65535-70000, plus cases with 1 MiB messages and writers one after the other; dgram (wt, quic): segment payload size 1-8 and 100 (hook) and the real 1188, messages of 1-6 segments at k*P, k*P-1, (k-1)*P+1, through Transport.WriteUnreliable and 0-3 AsUnreliable() handles, round robin or one goroutine per handle (3/4 of the concurrent cases: writers meet at a spin barrier before their i-th message, so that their Write calls overlap), paced (pause after 2-4 messages), read through a handle or Transport.ReadUnreliable; loss is never a violation; hostile (6 per transport and round, accepted side writes): 4-12 malformed datagrams sent on the raw session between the valid messages (0-7 bytes; header only / payload with max index 0 and index 1, 65535, random; index beyond max for max 1 and 5; max 65535 with one segment; a lone segment of a 2-6 segment message; random bytes), each under its own sequence number >= 2^31 - none may be handed up, no Read may fail, and a probe message written afterwards must arrive (5 tries). non-trivial = stream: concurrent writers or >=3 messages; dgram: a multi-segment message and more than one handle, or a hostile case; distinct = distinct Coq case terms"
+		" backend), the repository's transport on both ends, a fresh connection per case; one round = 99 cases (32 wt, 32 quic, 35 ws), quick = 3 rounds, thorough = 30. stream: per transport every level {0,1,6,9} (ws: off, per-message x {1,6,9}, context takeover window bits {0,1,8,15} x {1,6,9}) x {one writer, 2-4 concurrent writers}, 6-14 messages per writer with sizes 0,1,2,3,5,17,100,254-258,1000,4095,4096, random <600, one or two of 65535-70000, plus cases with 1 MiB messages and writers one after the other; dgram (wt, quic): segment payload size 1-8 and 100 (hook) and the real 1188, messages of 1-6 segments at k*P, k*P-1, (k-1)*P+1, through Transport.WriteUnreliable and 0-3 AsUnreliable() handles, round robin or one goroutine per handle (3/4 of the concurrent cases: writers meet at a spin barrier before their i-th message, so that their Write calls overlap), paced (pause after 2-4 messages), read through a handle or Transport.ReadUnreliable; loss is never a violation; hostile (6 per transport and round, accepted side writes): 4-12 malformed datagrams sent on the raw session between the valid messages (0-7 bytes; header only / payload with max index 0 and index 1, 65535, random; index beyond max for max 1 and 5; max 65535 with one segment; a lone segment of a 2-6 segment message; random bytes), each under its own sequence number >= 2^31 - none may be handed up, no Read may fail, and the receive loop must be alive afterwards (up to 40 single-datagram probes over 2 s; dead = none delivered and the peer's rx counter frozen - loss is never a violation). non-trivial = stream: concurrent writers or >=3 messages; dgram: a multi-segment message and more than one handle, or a hostile case; distinct = distinct Coq case terms"
 	if *only != "" {
 		rule = "(-only " + *only + ") " + rule
 	}
